@@ -173,6 +173,30 @@ func C04(p *core.Program, r *core.Report) {
 
 	checkSegmentMruChain(p, r)
 	checkDecoderPanicsAndLoops(p, r)
+
+	// ---- third-party decoders that allocate by a size their input declares (read once in the library's source):
+	// ulikunitz/xz v0.5.8 takes max(ReaderConfig.DictCap, the dictionary size byte of each block header) and allocates
+	// that buffer before it decodes a byte of the block, so no configuration caps it. Received bytes must not reach it.
+	declaredSizeDecoders := map[string]string{
+		"github.com/ulikunitz/xz.NewReader":              "LZMA2 dictionary size byte of a block header (up to 4 GiB)",
+		"github.com/ulikunitz/xz.ReaderConfig.NewReader": "LZMA2 dictionary size byte of a block header (up to 4 GiB)",
+	}
+	nLib := 0
+	for _, fn := range p.RepoFuncs() {
+		core.EachInstr(fn, func(in ssa.Instruction) {
+			c, ok := in.(ssa.CallInstruction)
+			if !ok {
+				return
+			}
+			what, listed := declaredSizeDecoders[core.CalleeName(c)]
+			if !listed {
+				return
+			}
+			nLib++
+			r.Fail("alloc-bound/"+fname(fn)+"/xz-dictionary", "bytes received from a peer are not handed to a library decoder that allocates a buffer of a size the bytes declare", p.Pos(in.Pos()), "the received transmission is decoded by xz.NewReader, which allocates the "+what+" before decoding any payload and cannot be capped through its configuration")
+		})
+	}
+	r.Analysed["declared_size_library_decoder_calls"] = nLib
 }
 
 // checkSegmentMruChain follows the peer-declared segment size to the buffer
